@@ -162,3 +162,11 @@ From EAO Require Import SLPProofs.
 Definition c17_case (P : lp) (fut : list bool) (cs : list vec) (P2 : lp) : list bool := lp_close (slp_lp P fut cs) P2.
 Definition c17_map_case (mp : list mrow) (fut : list bool) (nS n : nat) (mp2 : list mrow) : bool :=
   map_close (slp_map mp fut nS n) mp2 || map_close_perm (slp_map mp fut nS n) mp2.
+
+(* ---------- C07 / C14: joint mapping of a split set-up = Split.split_map of the interval problems ---------- *)
+From EAO Require Import Split.
+Definition split_part (I : list nat) (n : nat) (mp : list mrow) : list nat * aprob :=
+  (I, {| ap_lp := Build_lp (repeat 0 n) [] [] []; ap_map := mp |}).
+Definition c14_split_map_case (parts : list (list nat * aprob)) (joint : list mrow) : list bool :=
+  [ forallb (fun Ia => forallb (fun r => Nat.ltb (m_step r) (List.length (fst Ia)) && Nat.ltb (m_var r) (nvars (ap_lp (snd Ia)))) (ap_map (snd Ia))) parts;
+    map_close_perm (split_map parts 0) joint ].
